@@ -224,3 +224,15 @@ func C13FoldedKey(labels map[string]bool, name string) bool {
 	}
 	return labels[strings.ToLower(name)]
 }
+
+// C16ErrDead: positive control of ERR-DEAD (the error of Open is overwritten by WriteString's
+// before the loop condition reads it).
+func C16ErrDead(n int) error {
+	var err error
+	var f *os.File
+	for i := 0; i < n && err == nil; i++ {
+		f, err = os.Open("x")
+		_, err = f.WriteString("y")
+	}
+	return err
+}
